@@ -380,6 +380,8 @@ class CFG:
     def locate(self, node):
         """(block id, position) of the CFG element for node, or of its nearest
         enclosing element."""
+        if isinstance(node, dict) and "i" not in node:
+            return None         # a declarator record inside a `decls` node: not an element of its own
         i = node["i"] if isinstance(node, dict) else node
         bo = self.block_of
         par = self.fn.parent
